@@ -1,6 +1,6 @@
 """Contracts for DocumentTemplate.DT_In."""
 from pyvc.contracts import *  # noqa
-from pyvc.values import VC, VB  # noqa
+from pyvc.values import VC, VB, Val  # noqa
 from contracts.core import SN, M
 
 IN = 'DocumentTemplate.DT_In.InClass'
@@ -61,6 +61,68 @@ def _elem(E, sq, k):
     return E.seq_elem(sq, E.as_z3_int(k))
 
 
+def _sr_calls(E):
+    out = []
+    for t in E.trace:
+        if t[0] == 'contract-call' and t[1] in (IN + '.sort_sequence', IN + '.reverse_sequence'):
+            out.append(dict(kind=t[1].rsplit('.', 1)[1], arg=t[2].get('sequence'), ret=None))
+        elif t[0] == 'contract-ret' and t[1] in (IN + '.sort_sequence', IN + '.reverse_sequence') and out:
+            out[-1]['ret'] = t[2]
+    return out
+
+
+def _c13_order(E):
+    """sort (at most once) happens before reverse (at most once); reverse works on the sorted result"""
+    cs = _sr_calls(E)
+    kinds = [c['kind'] for c in cs]
+    if kinds not in ([], ['sort_sequence'], ['reverse_sequence'], ['sort_sequence', 'reverse_sequence']):
+        return VC(False)
+    if len(cs) == 2 and cs[1]['arg'] is not cs[0]['ret']:
+        return VC(False)
+    return VC(True)
+
+
+def _c13_result(E, sequence):
+    """the sequence shown is the output of the last of these steps (the caller's object only if neither ran)"""
+    cs = _sr_calls(E)
+    if cs:
+        return VC(cs[-1]['ret'] is sequence)
+    return VC(True)
+
+
+def _c13_applied(E, me):
+    """sort runs iff a sort option is present; reverse runs whenever the reverse option is present"""
+    import z3
+    cs = _sr_calls(E)
+    kinds = [c['kind'] for c in cs]
+    h = E.heap[me.addr]
+    none = z3.Const('None', Val)
+
+    def isnone(f):
+        v = E.getattr_(me, f)
+        t = E.to_val(v) == none
+        if E.valid(t):
+            return True
+        if E.valid(z3.Not(t)):
+            return False
+        return None
+    s_none, se_none, r_none, re_none = isnone('sort'), isnone('sort_expr'), isnone('reverse'), isnone('reverse_expr')
+    if se_none is True and s_none is not None:
+        if ('sort_sequence' in kinds) != (not s_none):
+            return VC(False)
+    if se_none is False and 'sort_sequence' not in kinds:
+        return VC(False)
+    if re_none is True and r_none is not None:
+        if ('reverse_sequence' in kinds) != (not r_none):
+            return VC(False)
+    if r_none is False and re_none is not None and 'reverse_sequence' not in kinds and re_none is True:
+        return VC(False)
+    return VC(True)
+
+
+_spec.register('c13_order', _c13_order)
+_spec.register('c13_result', _c13_result)
+_spec.register('c13_applied', _c13_applied)
 _spec.register('guard_fetched', _guard_fetched)
 _spec.register('elem_at', _elem)
 _spec.register('top_entry', _top_entry)
@@ -115,6 +177,11 @@ BINDING = {
     'C10.item_attributes_visible': "implies(pushed == 1 and not truthy_(mapping), same(bound_object(top_entry(md)), client))",
     'C10.only_strings_are_not_bound': "implies(not truthy_(no_push_item) and not truthy_(mapping) and pushed == 0, t in StringTypes)",
     'C10.objects_are_bound': "implies(not truthy_(no_push_item) and truthy_(mapping), pushed == 1)",
+}
+SORTED_CHECK = {
+    'C13.sort_then_reverse': "c13_order()",
+    'C13.shown_sequence_is_the_sorted_reversed_copy': "c13_result(sequence)",
+    'C13.sort_and_reverse_applied_as_requested': "c13_applied(self)",
 }
 FETCH = {
     'C10.element_is_sequence_item_at_index': "implies(is_none(guarded_getitem), same(client, elem_at(sequence, index)))",
@@ -178,7 +245,7 @@ def _make_wob(variant=None, prefixed=False):
         ensures=dict(SN), exc_ensures=dict(SN),
         uses=[RB, GI, SES, IN + ".sort_sequence", IN + ".reverse_sequence", M + ".join_unicode"],
         cuts=[CACHE_CUT,
-              dict(name="sorted", before="prefix = self.args.get('prefix')",
+              dict(name="sorted", before="prefix = self.args.get('prefix')", check=SORTED_CHECK,
                    live=['self', 'md', 'sequence', 'cache', 'section', 'mapping', 'no_push_item'],
                    abstract={'sequence': Seq(kind='any')},
                    havoc_fields=[('self', 'sort', None)],
@@ -257,7 +324,7 @@ def _make_wb(variant=None, prefixed=False):
         uses=[RB, GI, SES, IN + ".sort_sequence", IN + ".reverse_sequence", M + ".join_unicode",
               'DocumentTemplate.DT_In.int_param', OPT],
         cuts=[CACHE_CUT,
-              dict(name="sorted", before="next = previous = 0",
+              dict(name="sorted", before="next = previous = 0", check=SORTED_CHECK,
                    abstract={'sequence': Seq(kind='any', lazy=True)},
                    assume={'nonempty': "len_of(sequence) >= 1"},
                    havoc_fields=[('self', 'sort', None)],
